@@ -229,7 +229,8 @@ pub fn catalogue() -> Vec<Builtin> {
             v.push(Builtin { name: $name, src: $src, run: |cx| {
                 let s = gen_string(cx.c);
                 let n = gen_needle(cx.c, &s);
-                let k = [0u64, 1, 2, 3, 5, 1000][cx.c.below(6)];
+                // the count only bounds the number of parts: huge counts are as cheap as small ones
+                let k = [0u64, 1, 2, 3, 5, 1000, u64::MAX, 1 << 63, 1 << 32, (1 << 60) + 1][cx.c.below(10)];
                 let f = get!(cx, $name, fn(RotoString, u64, RotoString) -> List<RotoString>);
                 cx.nontrivial = subject_nt(&s) || k <= 1;
                 let g: fn(&str, usize, &str) -> Vec<String> = $f;
@@ -456,6 +457,14 @@ pub fn catalogue() -> Vec<Builtin> {
         Ok(())
     }});
     // ---------------------------------------------------------------- StringBuf
+    v.push(Builtin { name: "b_stringbuf_reuse", src: "fn b_stringbuf_reuse(a: String, b: char, c: String) -> String {\n    let buf = StringBuf.new();\n    buf.push_string(a);\n    let first = buf.as_string();\n    buf.push_char(b);\n    let second = buf.as_string();\n    buf.push_string(c);\n    first + \"|\" + second + \"|\" + buf.as_string() + \"|\" + buf.as_string()\n}", run: |cx| {
+        let (a, c2) = (gen_string(cx.c), gen_string(cx.c));
+        let b = ['a', 'é', '日', '\n', '\0'][cx.c.below(5)];
+        let f = get!(cx, "b_stringbuf_reuse", fn(RotoString, char, RotoString) -> RotoString);
+        cx.nontrivial = true;
+        expect_eq!(cx, "b_stringbuf_reuse", f.call(rs(&a), b, rs(&c2)).to_string(), format!("{a}|{a}{b}|{a}{b}{c2}|{a}{b}{c2}"), "{a:?}, {b:?}, {c2:?}");
+        Ok(())
+    }});
     v.push(Builtin { name: "b_stringbuf", src: "fn b_stringbuf(a: String, b: char, c: String) -> String {\n    let buf = StringBuf.from(a);\n    buf.push_char(b);\n    buf.push_string(c);\n    let other = StringBuf.new();\n    other.push_string(buf.as_string());\n    other.push_char(b);\n    other.as_string()\n}", run: |cx| {
         let (a, c2) = (gen_string(cx.c), gen_string(cx.c));
         let b = ['a', 'é', '日', '\n', '\0'][cx.c.below(5)];
